@@ -45,4 +45,13 @@ ScoreSafe == (stage = 2) =>
            \A rs \in StemsOf(Len(w)), qs \in StemsOf(Len(v)), fin \in BOOLEAN :
               LET m == WordMatch(Text1(w, rs, TRUE), Text1(w, rs, TRUE).words[1], Text1(v, qs, fin), Text1(v, qs, fin).words[1]) IN
               m = <<>> \/ (MatchScoreSafe(m[1].r) /\ m[1].r.sub <= Len(w) /\ m[1].q.sub <= Len(v) /\ m[1].r.sub >= 1)
+\* beyond the listed properties: typing one more correct letter never shortens the matched part of the record word
+\* (search-as-you-type highlights grow monotonically), for own-length stems
+Monotone == (stage = 2 /\ Mode = "prefix" /\ Len(v) < Len(w)) =>
+              LET T(p) == Text1(p, Len(p), FALSE)
+                  R == Text1(w, Len(w), TRUE)
+                  m1 == WordMatch(R, R.words[1], T(v), T(v).words[1])
+                  v2 == SubSeq(w, 1, Len(v) + 1)
+                  m2 == WordMatch(R, R.words[1], T(v2), T(v2).words[1])
+              IN m1 # <<>> /\ m2 # <<>> /\ m1[1].r.sub <= m2[1].r.sub /\ m1[1].r.t10 = 0 /\ m2[1].r.t10 = 0
 =============================================================================
